@@ -573,3 +573,60 @@ func ruleGRDdupcheck(w *World, r *Report) {
 		r.Und("GRD-dupcheck", "anchor:registrations", "", fmt.Sprintf("expected the id registrations of addActive and addBatchInternal, found %d", n))
 	}
 }
+
+// ---------- ORD-validate: a request is validated before anything is torn down ----------
+
+// ruleORDvalidate: DB.Compress replaces an index by a rebuilt one. The one step that can reject the request for a
+// reason of the request itself — constructing the replacement (hnsw.New refuses unsupported metric/precision pairs)
+// — must have succeeded before the first destructive step (closing the old index, moving or removing its arena
+// directory, resetting the secondary indexes): a rejected compression must leave the index as it was.
+func ruleORDvalidate(w *World, r *Report) {
+	r.Doc("ORD-validate", "DB.Compress constructs (and thereby validates) the replacement index successfully before its first destructive step: closing the old index, renaming/removing its arena directory, resetting the secondary-index maps", 3)
+	fi := w.Func("pkg/core", "DB.Compress")
+	ctor := w.FuncObj("pkg/core/hnsw", "New")
+	if fi == nil || ctor == nil {
+		r.Und("ORD-validate", "anchor:DB.Compress/hnsw.New", "", "anchor lost")
+		return
+	}
+	fn := w.SSAFunc(fi.Obj)
+	isCtor := callsTo(ctor)
+	if len(findInstrs(fn, isCtor)) == 0 {
+		r.Und("ORD-validate", "DB.Compress:constructs-replacement", w.Pos(fi.Decl.Pos()), "DB.Compress no longer constructs the replacement index with hnsw.New (shape not recognised)")
+		return
+	}
+	type step struct {
+		name string
+		pred func(ssa.Instruction) bool
+	}
+	steps := []step{
+		{"old-index-closed", func(in ssa.Instruction) bool { return isModCall(in, "pkg/core/hnsw", "Index.Close") }},
+		{"arena-directory-moved", func(in ssa.Instruction) bool {
+			return isCallTo(in, "os", "Rename") || isCallTo(in, "os", "RemoveAll") || isCallTo(in, "os", "Remove")
+		}},
+		{"secondary-indexes-reset", func(in ssa.Instruction) bool {
+			mu, ok := in.(*ssa.MapUpdate)
+			if !ok {
+				return false
+			}
+			ld, ok := mu.Map.(*ssa.UnOp)
+			if !ok {
+				return false
+			}
+			fa, ok := ld.X.(*ssa.FieldAddr)
+			if !ok {
+				return false
+			}
+			owner, _ := structFieldName(fa.X.Type(), fa.Field)
+			return strings.HasSuffix(owner, "core.DB")
+		}},
+	}
+	for _, st := range steps {
+		sites := findInstrs(fn, st.pred)
+		if len(sites) == 0 {
+			r.Ok("ORD-validate", "DB.Compress:"+st.name+":after-construction", w.Pos(fi.Decl.Pos()), "step absent")
+			continue
+		}
+		ok, wit := precedesWithSuccess(fn, isCtor, st.pred)
+		r.Cond(ok, "ORD-validate", "DB.Compress:"+st.name+":after-construction", w.Pos(sites[0].Pos()), "reached only after hnsw.New succeeded", "DB.Compress can reach the step '"+st.name+"' before the replacement index was constructed successfully: an unsupported metric/precision pair (or a misspelt precision) is rejected only after the live index was closed / its files moved / its secondary indexes emptied — the rejected request destroys the index it was meant to leave untouched", w.witness(wit)...)
+	}
+}
